@@ -175,7 +175,9 @@ Variable FFIManager::callFunction(const std::string &module_name,
     // ライブラリと関数の存在確認
     if (loaded_libraries_.find(module_name) == loaded_libraries_.end()) {
         last_error_ = "Module not loaded: " + module_name;
-        return Variable(); // エラー値
+        Variable error_result;
+        error_result.type = TYPE_UNKNOWN;
+        return error_result; // エラー値
     }
 
     LoadedLibrary &lib = loaded_libraries_[module_name];
@@ -183,7 +185,9 @@ Variable FFIManager::callFunction(const std::string &module_name,
     if (lib.function_pointers.find(function_name) ==
         lib.function_pointers.end()) {
         last_error_ = "Function not registered: " + function_name;
-        return Variable();
+        Variable error_result;
+        error_result.type = TYPE_UNKNOWN;
+        return error_result;
     }
 
     void *func_ptr = lib.function_pointers[function_name];
@@ -193,12 +197,17 @@ Variable FFIManager::callFunction(const std::string &module_name,
     // 引数の数チェック
     if (args.size() != sig.parameters.size()) {
         last_error_ = "Argument count mismatch for " + function_name;
-        return Variable();
+        Variable error_result;
+        error_result.type = TYPE_UNKNOWN;
+        return error_result;
     }
 
     Variable result;
 
-    if (sig.return_type == TYPE_DOUBLE || sig.return_type == TYPE_FLOAT) {
+    // NOTE: a function declared to return `float` must not be called through a
+    // double(*)(...) pointer (the result would be read from the wrong register width);
+    // float results are not supported and are reported below.
+    if (sig.return_type == TYPE_DOUBLE) {
         result.type = TYPE_DOUBLE;
 
         if (sig.parameters.size() == 1 &&
